@@ -3,6 +3,7 @@ package engine
 // Stubs for runtime-linked / reflection-heavy library functions.
 
 import (
+	"os"
 	"crypto/sha256"
 	"encoding/hex"
 	"encoding/json"
@@ -145,7 +146,19 @@ func init() {
 		"os.Exit": func(fr *frame, a []value) value {
 			code := int(asInt64(a[0]))
 			fr.i.m.ExitCode = &code
+			where := ""
+			for f, n := fr, 0; f != nil && n < 4; f, n = f.caller, n+1 {
+				if f.fn != nil {
+					where += " < " + f.fn.String()
+				}
+			}
+			if os.Getenv("GOSYM_TRACE_EXIT") != "" {
+				fmt.Fprintln(os.Stderr, "os.Exit"+where)
+			}
 			panic(targetPanic{iface{t: stringType, v: fmt.Sprintf("os.Exit(%d)", code)}})
+		},
+		"reflect.DeepEqual": func(fr *frame, a []value) value {
+			return fr.i.boolv(fr.i.deepEq(a[0], a[1]))
 		},
 		"runtime/debug.Stack":      func(fr *frame, a []value) value { return []value(nil) },
 		"runtime/debug.PrintStack": nop,
